@@ -174,6 +174,16 @@ def run(ctx):
             got = eq(s, x)
             if got is not want:
                 ctx.violation("schema == value disagrees with validation", value=repr(x), eq=repr(got), validates=want, **info_d)
+            # != is the negation of ==, whichever side the schema is on
+            try:
+                ne1, ne2, eq2 = (s != x), (x != s), (x == s)
+            except Exception:  # noqa: BLE001  (a value whose own comparison raises is outside the property)
+                continue
+            ctx.count("ne_value_probes")
+            if isinstance(got, bool) and (ne1 is not (not got)):
+                ctx.violation("!= is not the negation of == (schema against a value)", value=repr(x), eq=repr(got), ne=repr(ne1), **info_d)
+            elif isinstance(eq2, bool) and isinstance(ne2, bool) and (ne2 is not (not eq2)):
+                ctx.violation("!= is not the negation of == (value against a schema)", value=repr(x), eq=repr(eq2), ne=repr(ne2), **info_d)
     # corpus: the recorded findings' witnesses (classified, not suppressed wholesale)
     nan = float("nan")
     for a, b, x in ((schema.list([schema.any, ...]), schema.list([schema.any, schema.any]), [1]),
